@@ -11,7 +11,6 @@ import (
 
 	"github.com/B1NARY-GR0UP/originium"
 	"github.com/B1NARY-GR0UP/originium/types"
-	"github.com/B1NARY-GR0UP/originium/utils"
 
 	"verifharness/internal/core"
 	"verifharness/internal/eng"
@@ -538,6 +537,16 @@ func (s *scripted) reopen() bool {
 	return true
 }
 
+// keyProfileFor picks the key universe of a transaction case: hostile or prefix keys, and for every
+// fourth case keys that differ only in NUL padding (distinct keys whose conflict fingerprints must differ)
+func keyProfileFor(c core.Case, r *rand.Rand) string {
+	p := []string{"hostile", "prefix"}[r.Intn(2)]
+	if c.Seed%4 == 0 {
+		p = "nulpad"
+	}
+	return p
+}
+
 func runScripted(c core.Case) core.Result {
 	var res core.Result
 	r := rand.New(rand.NewSource(c.Seed))
@@ -550,16 +559,9 @@ func runScripted(c core.Case) core.Result {
 		s.cfg.MemtableByteThreshold = []int{1, 64, 300}[r.Intn(3)]
 	}
 	nk := 3 + r.Intn(maxHistKeys-2)
-	s.keys = gen.Keys(r, []string{"hostile", "prefix"}[r.Intn(2)], nk)
-	fps := map[uint64]bool{}
-	for _, k := range s.keys {
-		fps[utils.Hash(k)] = true
-	}
-	if len(fps) != len(s.keys) {
-		res.Verdict = "inconclusive"
-		res.Inconcl = "fingerprint collision in the key universe"
-		return res
-	}
+	s.keys = gen.Keys(r, keyProfileFor(c, r), nk)
+	// no guard against equal conflict fingerprints of distinct keys: with a 64-bit hash they do not occur in
+	// these fixed universes, and a tree in which they do refuses commits without cause - the rules say so
 	s.hist = make([][]sVer, nk)
 	eng.H.SetProfile(c.Str("delay", "none"), c.Seed)
 	defer eng.H.SetProfile("none", 0)
